@@ -3,7 +3,10 @@ use std::sync::{
     atomic::{AtomicU64, Ordering::Relaxed},
 };
 
+#[cfg(not(feature = "verif_hooks"))]
 use parking_lot::RwLock;
+#[cfg(feature = "verif_hooks")]
+use rawdb::verif::RwLock;
 
 mod any_vec;
 mod budget;
